@@ -109,10 +109,6 @@ end Tfl.Lat
 namespace Tfl.Lat
 open Tfl
 
-theorem jn_lt {N j : Nat} (pos : Bool) (h : j + 1 < N) : jn N pos j < N := by
-  unfold jn; split <;> omega
-theorem jc_lt {N j : Nat} (pos : Bool) (h : j + 1 < N) : jc N pos j < N := by
-  unfold jc; split <;> omega
 
 theorem trapScalar_congr (mode : TrapMode) (bs : List Idx) (f g : Idx → ℚ) (prior : ℚ)
     (h : ∀ b ∈ bs, f b = g b) : trapScalar mode bs f prior = trapScalar mode bs g prior := by
